@@ -33,7 +33,7 @@ func init() {
 		Props:  []string{"C10"},
 		Bubble: true,
 		Plan: func(prop, tier string) []Batch {
-			n := uint64(4000)
+			n := uint64(20000)
 			if tier == "thorough" {
 				n = 300000
 			}
